@@ -154,30 +154,95 @@ Proof.
     + simpl. rewrite string_eqb_refl, orb_true_r. reflexivity.
 Qed.
 
+(* ------------------------------------------------------------------ (round 5) the #copy library *)
+Lemma dmem_in p (t : dtree) : dmem p t = true -> In p (map fst t).
+Proof.
+  unfold dmem. induction t as [|[k v] r IH]; simpl; [discriminate|].
+  destruct (String.eqb p k) eqn:E; [apply String.eqb_eq in E; auto|]. intros H. right. apply IH. exact H.
+Qed.
+Lemma fkey_of_folder c p : k_folder (fkey_of c p) = Some (func_folder (c_legacy c)).
+Proof. unfold fkey_of, func_key. destruct (split_first ch_slash p) as [f [rest|]]; destruct (mem_str f (c_overrides c)); reflexivity. Qed.
+Lemma check_called_lib_false c st f l : check_called_lib (fun _ => false) c st f l = check_called c st f l.
+Proof. induction l as [|[p pre] r IH]; simpl; [reflexivity|]. rewrite IH. reflexivity. Qed.
+Lemma check_called_lib_none lib c st f l :
+  check_called_lib lib c st f l = None ->
+  forall p pre, In (p, pre) l -> lib p = true \/ amem p f = true \/ mem_str (first_seg p) (c_links c) = true.
+Proof.
+  induction l as [|[p0 pre0] r IH]; simpl; intros H p pre Hin; [contradiction|].
+  destruct (priv_violation st p0 pre0); [discriminate|].
+  destruct (negb (lib p0) && negb (amem p0 f) && negb (mem_str (first_seg p0) (c_links c))) eqn:E; [discriminate|].
+  destruct Hin as [Hin|Hin]; [|eauto]. inversion Hin; subst.
+  apply andb_false_iff in E as [E|E]; [apply andb_false_iff in E as [E|E]|]; apply negb_false_iff in E; auto.
+Qed.
+(* the undefined-call check accepts a call to a name the program does not define (and that is no #link name) IFF the
+   library ships it in the loaded folder *)
+Theorem lib_call_accepted_iff c e st f p pre :
+  priv_violation st p pre = false -> amem p f = false -> mem_str (first_seg p) (c_links c) = false ->
+  (check_called_lib (in_copy c e) c st f [(p, pre)] = None <-> in_copy c e p = true).
+Proof.
+  intros H1 H2 H3. simpl. rewrite H1, H2, H3. destruct (in_copy c e p); simpl; split; intros H; try reflexivity; discriminate.
+Qed.
+(* ... and what "ships" means: a file of the copied tree at data/<ns>/<func_folder legacy>/<path>.mcfunction; the same
+   file under the OTHER folder name does not count *)
+Theorem in_copy_spec c e p :
+  in_copy c e p = true <-> exists t, e_copy e = Some t /\ dmem (disk_path (fkey_of c p)) t = true.
+Proof.
+  unfold in_copy. split.
+  - destruct (e_copy e) as [t|]; [eauto|discriminate].
+  - intros [t [-> H]]. exact H.
+Qed.
+Theorem without_copy_checks c e b st f : e_copy e = None -> checks_lib (in_copy c e) c b st f = checks c b st f.
+Proof.
+  intros H. unfold checks_lib, checks. replace (check_called_lib (in_copy c e) c st f (called st)) with (check_called c st f (called st)); [reflexivity|].
+  rewrite <- check_called_lib_false. induction (called st) as [|[p pre] r IH]; simpl; [reflexivity|].
+  unfold in_copy at 1. rewrite H. rewrite IH. reflexivity.
+Qed.
+
+Lemma forallb_ext' {A} (f g : A -> bool) l : (forall x, f x = g x) -> forallb f l = forallb g l.
+Proof. intros H. induction l as [|a l IH]; simpl; [reflexivity|]. now rewrite H, IH. Qed.
+(* without a #copy folder the disk discipline is the discipline of the virtual build *)
+Theorem without_copy_disc c e b st : e_copy e = None -> disc_lib c e b st = disc c b st.
+Proof.
+  intros H. unfold disc_lib, disc, text_disc_lib, text_disc.
+  assert (R : forall r, ref_defined_lib c e b st r = ref_defined c b st r).
+  { intros r. unfold ref_defined_lib. destruct r as [l|l]; [|apply orb_false_r].
+    replace (existsb _ (called st)) with false; [apply orb_false_r|].
+    induction (called st) as [|pp r IH]; simpl; [reflexivity|]. rewrite <- IH. unfold in_copy. rewrite H. now rewrite andb_false_r. }
+  f_equal. f_equal. f_equal.
+  - apply forallb_ext'. intros l. apply forallb_ext'. exact R.
+  - apply forallb_ext'. intros x. destruct (snd (snd x)); [|reflexivity]. apply forallb_ext'. exact R.
+Qed.
+
 (* ------------------------------------------------------------------ the build *)
 Section Disk.
   Variables (c : cfg) (e : denv) (b : bdata) (st : state) (tree : dtree).
   Hypothesis HD : dbuild c e b st = inr tree.
 
   Lemma dbuild_inv : exists h' f' ff lx lv tx tv,
-    assemble c b st = inr (h', f') /\ checks c b st f' = None /\ emit_funcs c h' f' = inr ff /\
+    assemble c b st = inr (h', f') /\ checks_lib (in_copy c e) c b st f' = None /\ emit_funcs c h' f' = inr ff /\
     merged_tag c e (load_path c) = TRVals lx lv /\ merged_tag c e (tick_path c) = TRVals tx tv /\
     tree = overlay (disk_files c (ff ++ emit_jsons c (jsons st)))
                    (write_tick c (tick_nonempty c h' f') tx tv (write_load c lx lv (after_copy c e))) /\
-    build c b st = inr (emit_tags c h' f' ++ ff ++ emit_jsons c (jsons st))%list.
+    copy_clash c e f' = false.
   Proof.
     unfold dbuild, dbuild_gen in HD. destruct (assemble c b st) as [er|[h' f']] eqn:A; [discriminate|]. simpl in HD.
-    destruct (checks c b st f') eqn:C; [discriminate|].
+    destruct (copy_clash c e f') eqn:CC; [discriminate|].
+    destruct (checks_lib (in_copy c e) c b st f') eqn:C; [discriminate|].
     destruct (emit_funcs c h' f') as [er|ff] eqn:E; [discriminate|].
     destruct (merged_tag c e (load_path c)) as [|lx lv] eqn:ML; [discriminate|].
     destruct (merged_tag c e (tick_path c)) as [|tx tv] eqn:MT; [discriminate|].
     inversion HD; subst tree. exists h', f', ff, lx, lv, tx, tv. repeat split; try assumption; try reflexivity.
-    unfold build, bind. rewrite A. simpl. rewrite C. unfold emit, bind. rewrite E. reflexivity.
   Qed.
 
-  (* the disk build succeeds only where the virtual build does *)
-  Lemma dbuild_build : exists files, build c b st = inr files.
-  Proof. destruct dbuild_inv as (h' & f' & ff & lx & lv & tx & tv & _ & _ & _ & _ & _ & _ & B). eauto. Qed.
+  (* (round 5) the files the accepted disk build generates; with a call into the #copy library the VIRTUAL build of the
+     same program fails ("never defined"), so they are no longer taken from [build] *)
+  Lemma dbuild_files : exists h' f' ff,
+    assemble c b st = inr (h', f') /\ emit_funcs c h' f' = inr ff /\
+    all_files c b st = (emit_tags c h' f' ++ ff ++ emit_jsons c (jsons st))%list.
+  Proof.
+    destruct dbuild_inv as (h' & f' & ff & lx & lv & tx & tv & A & _ & E & _). exists h', f', ff.
+    repeat split; try assumption. unfold all_files. rewrite A. cbn [fst snd]. rewrite E. reflexivity.
+  Qed.
 
   Lemma dmem_write_tick p ne x tv t : dmem p t = true -> dmem p (write_tick c ne x tv t) = true.
   Proof.
@@ -186,12 +251,11 @@ Section Disk.
     destruct (strs_eqb vs0 tv); [assumption|now apply dmem_dset].
   Qed.
 
-  (* every file of the virtual build — the two tags, every function, every json — is a file of the tree *)
-  Theorem disk_generated_present files k :
-    build c b st = inr files -> In k (keys files) -> dmem (disk_path k) tree = true.
+  (* every file the build generates — the two tags, every function, every json — is a file of the tree *)
+  Theorem disk_all_present k : In k (keys (all_files c b st)) -> dmem (disk_path k) tree = true.
   Proof.
-    intros B Hk. destruct dbuild_inv as (h' & f' & ff & lx & lv & tx & tv & A & C & E & ML & MT & -> & B2).
-    rewrite B in B2. inversion B2; subst files. clear B2.
+    intros Hk. destruct dbuild_inv as (h' & f' & ff & lx & lv & tx & tv & A & C & E & ML & MT & -> & CC).
+    unfold all_files in Hk. rewrite A in Hk. cbn [fst snd] in Hk. rewrite E in Hk.
     unfold keys in Hk. cbn [map fst] in Hk. destruct Hk as [<-|Hk].
     { apply dmem_overlay. apply dmem_write_tick. unfold write_load. apply dmem_dset_same. }
     rewrite map_app in Hk. apply in_app_or in Hk as [Hk|Hk].
@@ -199,6 +263,39 @@ Section Disk.
       unfold write_tick. apply dmem_dset_same.
     - apply dmem_overlay_src. unfold disk_files. rewrite map_map. simpl.
       apply in_map_iff in Hk as [kv [<- Hin]]. apply in_map_iff. exists kv. split; [reflexivity|assumption].
+  Qed.
+  Lemma build_all_files files : build c b st = inr files -> files = all_files c b st.
+  Proof.
+    intros B. destruct (build_inv _ _ _ _ B) as (h2 & f2 & ff2 & A2 & _ & E2 & ->).
+    unfold all_files. rewrite A2. cbn [fst snd]. rewrite E2. reflexivity.
+  Qed.
+  Theorem disk_generated_present files k :
+    build c b st = inr files -> In k (keys files) -> dmem (disk_path k) tree = true.
+  Proof. intros B Hk. apply disk_all_present. rewrite <- (build_all_files _ B). exact Hk. Qed.
+
+  (* (round 5) a function the #copy library ships IN THE FOLDER THE PACK FORMAT LOADS is a file of the tree *)
+  Theorem in_copy_on_disk p : in_copy c e p = true -> dmem (disk_path (fkey_of c p)) tree = true.
+  Proof.
+    intros H. destruct dbuild_inv as (h' & f' & ff & lx & lv & tx & tv & _ & _ & _ & _ & _ & -> & _).
+    apply dmem_overlay. apply dmem_write_tick. unfold write_load. apply dmem_dset.
+    unfold after_copy. apply dmem_overlay_src. unfold in_copy in H. unfold copied.
+    destruct (e_copy e) as [t|]; [|discriminate]. now apply dmem_in.
+  Qed.
+
+  (* (round 5) CALLS RESOLVE ON DISK: every function the program calls (plain call, from a class, `schedule`, execute-run …:
+     the entries of functions_called) outside the #link namespaces names a function file of the tree, in the function
+     folder the pack format loads — generated by the build, or shipped by the #copy library in that folder *)
+  Theorem disk_called_resolves p pre :
+    In (p, pre) (called st) -> mem_str (first_seg p) (c_links c) = false ->
+    dmem (disk_path (fkey_of c p)) tree = true /\ k_folder (fkey_of c p) = Some (func_folder (c_legacy c)).
+  Proof.
+    intros Hin L. split; [|apply fkey_of_folder].
+    destruct dbuild_inv as (h' & f' & ff & lx & lv & tx & tv & A & C & E & _).
+    unfold checks_lib in C. destruct (check_called_lib (in_copy c e) c st f' (called st)) eqn:CC; [discriminate|].
+    destruct (check_called_lib_none _ _ _ _ _ CC _ _ Hin) as [M|[M|M]]; [now apply in_copy_on_disk| |congruence].
+    apply disk_all_present. unfold all_files. rewrite A. cbn [fst snd]. rewrite E.
+    unfold keys. rewrite !map_app. apply in_or_app. right. apply in_or_app. left.
+    destruct (emit_funcs_spec _ _ _ _ E) as [K _]. rewrite K. apply in_map. now apply amem_keys.
   Qed.
 
   (* CLOSURE ON DISK: every own-namespace reference (function call, schedule, function-tag entry, #tag, advancement
